@@ -10,6 +10,8 @@ def wt_of(seed):
 seeds = sorted(d + suf for suf, root in ROOTS.items() if os.path.isdir(root)
                for d in os.listdir(root) if os.path.isdir(f'{root}/{d}') and d.startswith('C') and os.path.isdir(f'{V}/seeded/{d}{suf}'))
 only_target = '--target-only' in sys.argv
+vseeds = [a.split('=')[1].split(',') for a in sys.argv[1:] if a.startswith('--vseeds=')]
+vseeds = vseeds[0] if vseeds else ['1']
 args = [a for a in sys.argv[1:] if not a.startswith('--')]
 if args:
     seeds = args
@@ -19,12 +21,14 @@ def run_seed(seed):
     os.makedirs(f'/tmp/vb/{seed}', exist_ok=True)
     row = {}
     for p in ([seed[:3]] if only_target else props):
+      for vs in vseeds:
+        key = p if vs == '1' else f'{p}@{vs}'
         try:
-            r = subprocess.run([f'{V}/check', p], cwd=V, env=env, capture_output=True, text=True, timeout=1500)
+            r = subprocess.run([f'{V}/check', p], cwd=V, env=dict(env, VERIF_SEED=vs), capture_output=True, text=True, timeout=1500)
             lines = [l for l in r.stdout.splitlines() if l.startswith('VIOLATION')]
-            row[p] = {'rc': r.returncode, 'concrete': any('no-failing-input-found' not in l for l in lines), 'n': len(lines)}
+            row[key] = {'rc': r.returncode, 'concrete': any('no-failing-input-found' not in l for l in lines), 'n': len(lines)}
         except subprocess.TimeoutExpired:
-            row[p] = {'rc': -1}
+            row[key] = {'rc': -1}
     subprocess.run(['rm', '-rf', f'/tmp/vb/{seed}'])
     return seed, row
 
@@ -35,5 +39,6 @@ with cf.ThreadPoolExecutor(max_workers=4) as ex:
     for seed, row in ex.map(run_seed, seeds):
         matrix.setdefault(seed, {}).update(row)
         alarms = [p + ('' if r.get('concrete') else '(nfi)') for p, r in row.items() if r['rc'] != 0]
-        print(seed, 'alarms:', alarms, flush=True)
+        quiet = [p for p, r in row.items() if r['rc'] == 0]
+        print(seed, 'alarms:', alarms, 'QUIET:' if quiet else '', quiet or '', flush=True)
         json.dump(matrix, open(f'{V}/seeded/matrix.json', 'w'), indent=1)
